@@ -17,6 +17,9 @@
 (*             minus one status prefix minus one code prefix               *)
 (*   MessageFixedPoint: every later level repeats the first hop's message  *)
 (*   HEAD carriers: status kept, the status-derived representative         *)
+(*   listings whose backend yields items and THEN the error: the error     *)
+(*             arrives at every level (all laws above), after exactly the  *)
+(*             items of the pages before the failing one                   *)
 (***************************************************************************)
 EXTENDS OciError, Json, IOUtils, TraceHdr
 
@@ -60,12 +63,17 @@ IsOK(t, ref, got) ==
      /\ RI \in ref /\ RI \notin CodeIds(t) /\ Status(t) # 416 /\ RI \notin got
      /\ (lo \ {RI}) \subseteq got /\ got \subseteq ref
 
+ListCarriers == {"Repositories", "Tags", "Referrers"}
+\* ociclient.Referrers does not page: one request, so the error arrives alone
+EffPage(e) == IF e.carrier = "Referrers" \/ e.page = 0 THEN 1000 ELSE e.page
+Upto(n) == [i \in 1..n |-> i]
+
 BodyLevelOK(t, ref, o, w, k, o1, w1) ==
   /\ o.isErr /\ o.http /\ o.status = Status(t)
   /\ o.hasCode /\ o.code = WireCode(t)
   /\ o.detail = WireDetail(t)
   /\ IsOK(t, ref, ToSet(o.is))
-  /\ w.status = Status(t) /\ ~w.empty /\ w.json /\ w.n = 1 /\ w.nreq = 1
+  /\ w.status = Status(t) /\ ~w.empty /\ w.json /\ w.n = 1 /\ w.nreq >= 1
   /\ w.code = WireCode(t)
   /\ w.detail = WireDetail(t)
   /\ IF k = 1 THEN w.msg \in {WireMsg(t, FALSE), WireMsg(t, TRUE)}
@@ -88,8 +96,14 @@ CaseOK(e) ==
       ref == ToSet(e.lv[1].is) IN
   /\ e.carrier \in Carriers
   /\ K >= 1 /\ Len(e.lv) = K + 1 /\ Len(e.wire) = K
-  /\ e.reached = <<BackendMethod(e.carrier)>>
-  /\ Level0OK(t, e.lv[1])
+  /\ e.nitems >= 0 /\ e.page >= 0
+  /\ (e.carrier \notin ListCarriers) => (e.nitems = 0 /\ e.page = 0)
+  /\ Len(e.reached) >= 1 /\ ToSet(e.reached) = {BackendMethod(e.carrier)}
+  /\ (e.nitems = 0) => Len(e.reached) = 1
+  /\ Level0OK(t, e.lv[1]) /\ e.lv[1].items = <<>>
+  \* a listing that fails after items: exactly the items of the pages before the failing one, then the error
+  /\ \A k \in 1..K : /\ e.lv[k + 1].items = Upto(Delivered(e.nitems, EffPage(e), k))
+                      /\ (e.nitems = 0) => e.wire[k].nreq = 1
   /\ \A k \in 1..K :
        IF e.carrier \in HeadCarriers THEN HeadLevelOK(t, e.lv[k + 1], e.wire[k])
        ELSE BodyLevelOK(t, ref, e.lv[k + 1], e.wire[k], k, e.lv[2], e.wire[1])
